@@ -103,7 +103,7 @@ struct Ref {
 		std::string srcdir = slash == std::string::npos ? std::string() : srcpath.substr(0, slash + 1);
 		size_t off = 0; std::string base; bool has_base = false;
 		meta_extent(text, &off, &base, &has_base);
-		if (has_base) folder = (!base.empty() && base[0] == '/') ? base : with_sep(srcdir) + base;
+		if (has_base) folder = (!base.empty() && base[0] == '/') ? base : srcdir.empty() ? base : with_sep(srcdir) + base;      // a bare file name lives in the working directory
 		size_t start = text.find("{{", off);
 		while (start != std::string::npos && mismatch.empty()) {
 			if (budget-- == 0) { cyclic = true; break; }
@@ -303,6 +303,7 @@ struct InclEngine : Engine {
 				o["search"] = tdir; o["src"] = top;
 				// batch mode (-b): every file argument is transcluded and converted on its own, output next to the input
 				if (w.chance(1, 3)) { o["batch"] = true; o["top2"] = paths[w.below((uint64_t)nfiles)]; }
+				if (w.chance(1, 3)) o["rel"] = true;      // file arguments spelled relative to the working directory (/sim/w): a.txt, sub/b.txt, ../x/c.txt
 			} else if (k < 6) {
 				o["k"] = "TRANSCLUDE"; o["fmt"] = i == 0 ? fmt : (w.chance(1, 2) ? fmt : w.chance(1, 3) ? (int)w.below(13) : gen_text_format(w));
 				o["search"] = w.chance(1, 6) ? "/sim/w/" : "/sim/w";
@@ -413,9 +414,15 @@ struct InclEngine : Engine {
 					size_t dot = tp.rfind('.');
 					outps.push_back((dot == std::string::npos || dot == 0 ? tp : tp.substr(0, dot)) + bext[cfmt % 13]);
 				}
+				auto spell = [&](const std::string & pth) -> std::string {
+					if (!op.getb("rel")) return pth;
+					if (pth.compare(0, 7, "/sim/w/") == 0) return pth.substr(7);
+					if (pth.compare(0, 5, "/sim/") == 0) return "../" + pth.substr(5);
+					return pth;
+				};
 				std::vector<std::string> args = {"multimarkdown", "-t", fnames[cfmt % 13]};
-				if (batch) { args.push_back("-b"); for (auto & tp : tops) args.push_back(tp); }
-				else { args.push_back("-o"); args.push_back(outps[0]); args.push_back(top); }
+				if (batch) { args.push_back("-b"); for (auto & tp : tops) args.push_back(spell(tp)); }
+				else { args.push_back("-o"); args.push_back(outps[0]); args.push_back(spell(top)); }
 				std::vector<char *> argv; for (auto & a2 : args) argv.push_back(&a2[0]); argv.push_back(nullptr);
 				int rc = IN_LIB(mmd_cli_main((int)args.size(), argv.data()));
 				o["rc"] = rc;
@@ -444,7 +451,12 @@ struct InclEngine : Engine {
 					g_sim.fopen_cap = 0; g_sim.bytes_cap = 0;
 					std::string toptext = strip_bom(tape[0].delivered);
 					std::string tdir = tops[j].substr(0, tops[j].rfind('/'));
-					std::string want = ref.T(toptext, tdir, tops[j], anc, 0);
+					// what the tool hands to the transcluder: the folder is dirname(argument); the source path is the absolute path (single file:
+					// realpath) or the argument as spelled (batch mode)
+					std::string arg = spell(tops[j]);
+					size_t asl = arg.rfind('/');
+					std::string afolder = asl == std::string::npos ? std::string(".") : asl == 0 ? std::string("/") : arg.substr(0, asl);
+					std::string want = ref.T(toptext, afolder, batch ? arg : tops[j], anc, 0);
 					if (ref.mismatch.empty() && ref.cursor != tape.size()) ref.mismatch = "library made " + std::to_string(tape.size() - ref.cursor) + " more open(s) than the model, first extra: " + tape[ref.cursor].path;
 					if (ref.cyclic) { any_cycle = true; probes["guard_hit"]++; }
 					if (ref.depth_max > max_depth) max_depth = ref.depth_max;
